@@ -239,6 +239,8 @@ def _case(arg) -> Dict[str, Any]:
 
     steps = seed % 4
     kw = dict(n_threads=1 + seed % 2, n_streams=1 + seed % 2, steps=steps, p_orphan_kernel=0.15, p_missing_kernel=0.15, before_first=True, after_last=True, n_top=2 + seed % 2)
+    if seed % 4 == 1:
+        kw["p_skew"] = 0.5  # device clock behind the host clock: an activity may start before the call that launched it (it still inherits that call's iteration)
     if seed % 5 in (1, 3):
         kw.update(first_op_in_step=True, p_orphan_kernel=0.3)  # event id 0 has an iteration; device activities without a host partner must still get -1
     if seed % 4 in (2, 3) and seed % 8 >= 4:
